@@ -20,6 +20,6 @@ demo_fail = "FAIL" in log.split("== demo with patch")[-1].split("== our check")[
 demo_ok = "ok" in log.split("== demo on clean tree")[-1].split("== build")[0] if "== demo on clean tree" in log else None
 meta = dict(property=pid, breaks=pid, summary=summary, needs_to_manifest=needs, checks_run=caught_props,
             ran=["tools/verify_seed.sh %s  (scratch worktree at /repo HEAD: demo on clean tree, apply patch, build, demo with patch, ./check with VERIF_REPO=<worktree>)" % pid],
-            demo_passes_on_clean_tree=demo_ok, demo_fails_with_patch=demo_fail, caught_by_our_check=viol, signatures=sigs)
+            demo_passes_on_clean_tree=demo_ok, demo_fails_with_patch=demo_fail, caught_by_our_check=viol, n_signatures=len(sigs), signatures=[x[:200] for x in sigs[:12]])
 json.dump(meta, open(os.path.join(dst, "meta.json"), "w"), indent=1)
 print(json.dumps(meta)[:400])
